@@ -140,7 +140,29 @@ func (g G) planC02() *Plan {
 	// requests that name foreign consumer endpoints, bindings and indices themselves
 	for i := range p.Steps {
 		if m := p.Steps[i].Msg; m != nil && m.Kind == "sso" && g.chance(fmt.Sprintf("foreign%d", i), 35) {
-			switch g.intn(fmt.Sprintf("foreignk%d", i), 6) {
+			switch g.intn(fmt.Sprintf("foreignk%d", i), 8) {
+			case 6, 7:
+				// a registered consumer URL in another spelling (letter case, Unicode case folding, surrounding white space, escapes)
+				if c := &p.World.SPs[mod(m.SP, len(p.World.SPs))]; m.SP >= 0 && len(c.ACS) > 0 {
+					a := c.ACS[g.intn(fmt.Sprintf("foreignx%d", i), len(c.ACS))]
+					switch g.intn(fmt.Sprintf("foreignsp%d", i), 7) {
+					case 0:
+						m.ACSURL = strings.ToUpper(a.URL)
+					case 1:
+						m.ACSURL = strings.Replace(a.URL, "https://sp", "HTTPS://SP", 1)
+					case 2:
+						m.ACSURL = " " + a.URL
+					case 3:
+						m.ACSURL = a.URL + " "
+					case 4:
+						m.ACSURL = strings.Replace(strings.Replace(a.URL, "s", "\u017f", 1), "k", "\u212a", 1)
+					case 5:
+						m.ACSURL = strings.Replace(a.URL, "/acs", "/%61cs", 1)
+					case 6:
+						m.ACSURL = "\t" + a.URL + "\n"
+					}
+					m.ProtoBind = g.pick(fmt.Sprintf("foreignpb%d", i), "", a.Binding)
+				}
 			case 4, 5:
 				// a consumer URL that merely extends a registered one
 				if c := &p.World.SPs[mod(m.SP, len(p.World.SPs))]; m.SP >= 0 && len(c.ACS) > 0 {
